@@ -46,7 +46,7 @@ def reserved_spelling(doc):
         if c in (b"f", b"b", b"o", b"u") or (c and c in b"01234567"):
             return True
     # number-like tokens that are not core numbers
-    for tok in TOKEN_SPLIT.split(doc):
+    for tok in TOKEN_SPLIT.split(doc.replace(b"#_", b" ").replace(b"##", b" ")):
         if re.match(rb"^[+-]?[0-9]", tok) and not CORE_NUM.match(tok):
             return True
     return False
